@@ -17,6 +17,8 @@ import (
 	"time"
 
 	"github.com/ozanh/ugo"
+	ugostrings "github.com/ozanh/ugo/stdlib/strings"
+	ugotime "github.com/ozanh/ugo/stdlib/time"
 	"github.com/ozanh/ugo/vshim/vsched"
 
 	"verif/internal/fw"
@@ -34,15 +36,16 @@ func init() {
 		Level: "model_checking",
 		Rule: "closed drivers over the real code, built from /repo's working tree with sync, sync/atomic, `go`, select, <-ch and close rewritten to a controlled scheduler (one thread runs at a time; every Mutex/RWMutex/Pool/atomic/channel/spawn operation is a scheduling point, pool Get is a choice recycled|new). " +
 			"Scenarios: root (VM.Run of a spinning or terminating script || 1-2 Abort calls), reuse (two Runs on one VM || Abort), child (script inside a Go callback that runs script functions through Invoker, pooled or not, once or twice, spinning or terminating || Abort), " +
-			"eval (Eval.Run incl. compilation, goroutine start and both selects || cancellation of the context; one or two evaluations), clear (Abort || Clear/second Run). " +
-			"For each scenario ALL schedules with at most B preemptions (quick 2, thorough 3) are executed by stateless depth-first search; fair yield after 12 consecutive polls; an execution is cut 60 polls after the last Abort/cancel returned. " +
+			"eval (Eval.Run incl. compilation, goroutine start and both selects || cancellation of the context; one or two evaluations), clear (Abort || Clear/second Run), stdlib (the real time.Sleep builtin on root and child VM with its sleeps turned into yields, the real strings.Map). " +
+			"For each scenario ALL schedules with at most B preemptions (quick 2, thorough 4) are executed by stateless depth-first search; fair yield after 12 consecutive polls; an execution is cut 60 polls after the last Abort/cancel returned. " +
 			"Oracle per execution: no deadlock, no panic; once an Abort whose flag store follows the reset of the Run in progress has returned, Run returns VMAbortedError within 60 polls (also while a child VM spins); a Run reports VMAbortedError only if an Abort was called after its reset; a Run with no such Abort returns its normal value; " +
 			"Eval.Run returns within 60 polls after cancellation, with a non-nil error if the script cannot end by itself or the context was cancelled before the call; a later evaluation with a live context returns its normal value. " +
-			"states = distinct scheduler states (pending operation of every thread, lock owners, atomic values, pool sizes), transitions = executed scheduling points, traces = executions; every execution is replayed from its choice prefix and compared event by event with the execution it branches from (divergence = infrastructure error); " +
+			"states = distinct scheduler states (pending operation of every thread, lock owners, atomic values, pool sizes) per exploration unit, summed; transitions = executed scheduling points, traces = executions; every execution is replayed from its choice prefix and compared event by event with the execution it branches from (divergence = infrastructure error); " +
 			"non-trivial = executions in which the abort/cancel landed between the first and the last operation of the run it targets",
 		Run:       run09,
 		Shards:    16,
 		MarkCases: true,
+		ThoroughBudget: 90 * time.Minute,
 		WorkerEnv: []string{"GOMAXPROCS=1"},
 		Assumptions: []string{
 			"sequential consistency (Go atomics are SC; unsynchronised sharing is C08's race pass)",
@@ -356,6 +359,40 @@ func scenarios(thorough bool) []*scenario {
 			},
 		})
 	}
+	// stdlib: the real time.Sleep builtin (polls VM.Aborted between 10 ms sleeps; the sleeps are scheduler yields
+	// here) on the root VM and on a child VM, and the real strings.Map running a spinning function
+	for _, sv := range []struct{ key, src string }{
+		{"stdlib time.Sleep on the root VM", "time := import(\"time\")\ntime.Sleep(3600000000000)\nreturn 7"},
+		{"stdlib time.Sleep on a pooled child VM", "param cb\ntime := import(\"time\")\nf := func() { time.Sleep(3600000000000); return 1 }\ncb(f)\nreturn 7"},
+		{"stdlib strings.Map with a spinning function", "strings := import(\"strings\")\nreturn strings.Map(func(c) { for {} }, \"ab\")"},
+		{"stdlib strings.Map with a terminating function, then spin", "strings := import(\"strings\")\ns := strings.Map(func(c) { return c + 1 }, \"ab\")\nfor {}"},
+	} {
+		sv := sv
+		mm := ugo.NewModuleMap()
+		mm.AddBuiltinModule("time", ugotime.Module)
+		mm.AddBuiltinModule("strings", ugostrings.Module)
+		bc, err := ugo.Compile([]byte(sv.src), ugo.CompilerOptions{NoOptimize: true, ModuleMap: mm})
+		if err != nil {
+			panic(fmt.Sprintf("c09: %s: %v", sv.key, err))
+		}
+		out = append(out, &scenario{
+			key:  sv.key,
+			desc: "T1 vm.Run(script using the stdlib builtin) || T2 vm.Abort()",
+			nonterm: []bool{true}, want: []int64{7},
+			body: func() {
+				vm := ugo.NewVM(bc)
+				cb := &ugo.Function{Name: "cb", ValueEx: func(c ugo.Call) (ugo.Object, error) {
+					inv := ugo.NewInvoker(c.VM(), c.Get(0))
+					inv.Acquire()
+					defer inv.Release()
+					_, err := inv.Invoke()
+					return ugo.Undefined, err
+				}}
+				vsched.Go("run", func() { runVM(vm, 0, nil, cb) })
+				vsched.Go("abort", aborter(vm, 1))
+			},
+		})
+	}
 	// eval: Eval.Run under a context
 	type evalVar struct {
 		scripts []string
@@ -625,22 +662,34 @@ func stopFn(e *vsched.Exec) bool {
 func run09(c *fw.Ctx) {
 	bound := 2
 	if c.Thorough() {
-		bound = 3
+		bound = 4
 	}
 	if v := os.Getenv("C09_BOUND"); v != "" {
 		fmt.Sscan(v, &bound)
 	}
 	c.Family("scenarios", fmt.Sprintf("all schedules with <= %d preemptions of every scenario", bound))
 	cfg := vsched.Config{Quantum: quantum, Horizon: maxPoints, Stop: stopFn}
+	// every scenario is explored in `units` independent parts (by the position of the first deviation) so that the
+	// 16 workers share the large scenarios
+	units := 1
+	if c.Thorough() {
+		units = 8
+	}
 	for _, s := range scenarios(c.Thorough()) {
-		if !c.Next() {
-			continue
+		for u := 0; u < units; u++ {
+			if !c.Next() {
+				continue
+			}
+			if c.Skip(s.key) {
+				continue
+			}
+			c.Mark(fmt.Sprintf("%s [unit %d/%d]", s.key, u, units))
+			cfg := cfg
+			if units > 1 {
+				cfg.TopMod, cfg.TopRem = units, u
+			}
+			explore(c, s, cfg, bound)
 		}
-		if c.Skip(s.key) {
-			continue
-		}
-		c.Mark(s.key)
-		explore(c, s, cfg, bound)
 	}
 }
 
@@ -698,13 +747,15 @@ func explore(c *fw.Ctx, s *scenario, cfg vsched.Config, bound int) {
 		}
 		return true
 	})
+	if cfg.TopMod > 0 && cfg.TopRem > 0 {
+		stats.Executions-- // the default schedule is counted by unit 0
+	}
 	c.AddEval(stats.Executions)
 	c.AddTraces(stats.Executions)
 	c.AddTransitions(stats.Points)
 	c.AddStates(int64(len(stats.StateHashes)))
 	c.Count("schedules", stats.Executions)
 	c.Count("executions_cut_at_horizon", stats.Cut)
-	c.Count("max_points_in_one_execution", 0)
 	if nontriv > 0 {
 		c.Nontrivial()
 	}
